@@ -25,7 +25,8 @@ def nz(rng, lo, hi, digits=3):
 # --------------------------------------------------------------------------
 ELEMENTARY_FAMILIES = {
     'p': ['general', 'axis+', 'axis-', '3pt-Dpos', '3pt-Dneg', '3pt-D0-C',
-          '3pt-D0-B', '3pt-D0-A', '3pt-generic'],
+          '3pt-D0-B', '3pt-D0-A', '3pt-generic', '3pt-axis-neg',
+          '3pt-axis-pos'],
     'px': ['any'], 'py': ['any'], 'pz': ['any'],
     'so': ['any'], 's': ['any'], 'sx': ['any'], 'sy': ['any'], 'sz': ['any'],
     'c/x': ['any'], 'c/y': ['any'], 'c/z': ['any'],
@@ -40,9 +41,9 @@ ELEMENTARY_FAMILIES = {
     'tx': ['circular', 'elliptic', 'spindle'],
     'ty': ['circular', 'elliptic', 'spindle'],
     'tz': ['circular', 'elliptic', 'spindle'],
-    'x': ['plane1', 'plane2', 'cyl', 'cone-up', 'cone-down'],
-    'y': ['plane1', 'plane2', 'cyl', 'cone-up', 'cone-down'],
-    'z': ['plane1', 'plane2', 'cyl', 'cone-up', 'cone-down'],
+    'x': ['plane1', 'plane2', 'cyl', 'cone-up', 'cone-down', 'cone-apex'],
+    'y': ['plane1', 'plane2', 'cyl', 'cone-up', 'cone-down', 'cone-apex'],
+    'z': ['plane1', 'plane2', 'cyl', 'cone-up', 'cone-down', 'cone-apex'],
 }
 
 
@@ -97,6 +98,22 @@ def elementary(rng, kind, family):
         if family == '3pt-Dneg':
             nrm = [nz(rng, 0.2, 1), nz(rng, 0.2, 1), nz(rng, 0.2, 1)]
             return three_points(rng, nrm, -rnd(rng, 0.5, 4))
+        if family in ('3pt-axis-neg', '3pt-axis-pos'):
+            # the three points share one coordinate exactly
+            ax = rng.randrange(3)
+            val = rnd(rng, 0.5, 5) * (-1 if family == '3pt-axis-neg' else 1)
+            pts = []
+            for ang in (0.4, 2.3, 4.1):
+                rad = rng.uniform(1.5, 4)
+                pnt = [0.0, 0.0, 0.0]
+                oth = [i for i in range(3) if i != ax]
+                pnt[ax] = val
+                pnt[oth[0]] = round(rad * math.cos(ang), 3)
+                pnt[oth[1]] = round(rad * math.sin(ang), 3)
+                pts.append(pnt)
+            if rng.random() < 0.5:
+                pts[0], pts[2] = pts[2], pts[0]
+            return [v for pnt in pts for v in pnt]
         if family == '3pt-D0-C':
             nrm = [nz(rng, 0.2, 1), nz(rng, 0.2, 1), nz(rng, 0.2, 1)]
             return _exact_plane_points(rng, nrm)
@@ -196,6 +213,11 @@ def elementary(rng, kind, family):
         h1 = rnd(rng, -4, 0)
         h2 = rnd(rng, 1, 5)
         r1, r2 = rnd(rng, 0.5, 2), rnd(rng, 2.5, 5)
+        if family == 'cone-apex':
+            # one of the two points is the apex itself (r = 0)
+            r1 = 0.0
+            if rng.random() < 0.5:
+                h1, h2 = h2, h1
         if family == 'cone-down':
             r1, r2 = r2, r1
         if rng.random() < 0.5:
